@@ -36,7 +36,10 @@ Inductive wstate :=
 | WFree               (* not created yet, or idle (then it is in the idle list) *)
 | WQueued (c : cid)   (* item put on the worker's queue, not dequeued yet *)
 | WExec (c : cid)     (* the function of call c is executing *)
-| WLost               (* dequeued an item whose future was already cancelled: back in queue.get(), NOT in the idle list *)
+| WSkip               (* dequeued an item whose future was already cancelled: the function is not run, a
+                         _report_result(future, None, None) is on its way to the loop (HEAD, after fix 952e60b) *)
+| WLost               (* PINNED tree only (before 952e60b): the skipped item was not reported; the worker is back in
+                         queue.get() and NOT in the idle list - never reused, never pruned *)
 | WStopped.           (* pruned: stop() *)
 
 Record call := mkc {
@@ -72,7 +75,9 @@ Inductive op :=
 | ThreadStart (w : wid)              (* worker w dequeues its item *)
 | ThreadFinish (w : wid) (p : payload)  (* _report_result of worker w runs in the loop *)
 | ThreadCheckCancelled (w : wid)     (* the function running on w calls from_thread.check_cancelled() *)
-| SetTotal (n : nat).                (* limiter.total_tokens = n *)
+| SetTotal (n : nat)                 (* limiter.total_tokens = n *)
+| ThreadReturn (w : wid).            (* the payload-less _report_result of a skipped (already cancelled) item runs in the
+                                        loop: the worker goes back to the idle deque, the future stays cancelled *)
 
 Inductive res :=
 | RNone | RBlocked | RDone
@@ -261,7 +266,7 @@ Definition step (s : st) (o : op) : st * res :=
       | WQueued c =>
           match fut (calls s c) with
           | FCancelled =>
-              (mk (total s) (lb s) (lq s) (prune s) (idle s) (nwork s) (upd (wk s) w WLost) (calls s)
+              (mk (total s) (lb s) (lq s) (prune s) (idle s) (nwork s) (upd (wk s) w WSkip) (calls s)
                   (exec s) (lowered s), RNone)
           | _ =>
               (mk (total s) (lb s) (lq s) (prune s) (idle s) (nwork s) (upd (wk s) w (WExec c)) (calls s)
@@ -289,6 +294,30 @@ Definition step (s : st) (o : op) : st * res :=
       let '(q, b, cs) := grant_loop n (lq s) (lb s) (calls s) in
       (mk n b q (prune s) (idle s) (nwork s) (wk s) cs (exec s)
           (orb (lowered s) (Nat.ltb n (total s))), RNone)
+  | ThreadReturn w =>
+      match wk s w with
+      | WSkip =>
+          (mk (total s) (lb s) (lq s) (prune s) (w :: idle s) (nwork s) (upd (wk s) w WFree) (calls s)
+              (exec s) (lowered s), RNone)
+      | _ => (s, RRejected)
+      end
+  end.
+
+(* The PINNED tree (before fix 952e60b): identical except that a skipped item is not reported. *)
+Definition step_pinned (s : st) (o : op) : st * res :=
+  match o with
+  | ThreadStart w =>
+      match wk s w with
+      | WQueued c =>
+          match fut (calls s c) with
+          | FCancelled =>
+              (mk (total s) (lb s) (lq s) (prune s) (idle s) (nwork s) (upd (wk s) w WLost) (calls s)
+                  (exec s) (lowered s), RNone)
+          | _ => step s o
+          end
+      | _ => step s o
+      end
+  | _ => step s o
   end.
 
 (* ---- derived notions used by the theorems ---- *)
@@ -308,7 +337,7 @@ Definition holds (k : call) : bool :=
 (* ================= codec ================= *)
 (* case = total :: prune :: ncalls :: auto :: ops, each op = 4 integers [code; a; b; c].
    Codes: 0 Scope c sh | 1 Call c ab | 2 Resume c | 3 CancelCaller c i | 4 Deliver c | 5 StartCall c (ThreadStart of the
-   worker holding c's item) | 6 FinishCall c kind v | 7 CheckCancelledCall c | 8 SetTotal n.
+   worker holding c's item) | 6 FinishCall c kind v | 7 CheckCancelledCall c | 8 SetTotal n | 9 ThreadReturn w.
    Thread ops name the call; the codec looks up the worker.  With auto = 1 every scripted op is followed by `settle`
    (everything the loop and the threads do on their own until quiescence), which is what the harness can observe
    with real threads.  Output: per op 8 integers, then per call 4 integers
@@ -340,6 +369,7 @@ Definition do_op (s : st) (code a b c : Z) : st * res :=
   | 7 => match find_worker s (zn a) false with
          | Some w => step s (ThreadCheckCancelled w) | None => (s, RRejected) end
   | 8 => step s (SetTotal (zn a))
+  | 9 => step s (ThreadReturn (zn a))
   | _ => (s, RRejected)
   end%Z.
 
@@ -347,7 +377,10 @@ Definition do_op (s : st) (code a b c : Z) : st * res :=
    pending cancellations are delivered *)
 Definition settle_round (n : nat) (s : st) : st :=
   let s1 := fold_left (fun s c => if runnable (calls s c) then fst (step s (Resume c)) else s) (seq 0 n) s in
-  let s2 := fold_left (fun s w => match wk s w with WQueued _ => fst (step s (ThreadStart w)) | _ => s end)
+  let s2 := fold_left (fun s w => match wk s w with
+                                  | WQueued _ => fst (step s (ThreadStart w))
+                                  | WSkip => fst (step s (ThreadReturn w))
+                                  | _ => s end)
                       (seq 0 (nwork s1)) s1 in
   fold_left (fun s c => if walk (chain (calls s c)) then deliver s c else s) (seq 0 n) s2.
 
